@@ -7,7 +7,8 @@ ENTRY = dict(
         corr_files=["Corr/C04Corr.v"],
         theorems=["c04_exact_complete", "c04_no_zero", "c04_count_sum", "c04_unbiased", "c04_infinite",
                   "c04_refuses", "c04_machine_refines_spec", "c04_final_sort", "c04_never_crashes", "c04_always_served",
-                  "c04_one_draw_bridge_partial", "c04_facts"],
+                  "c04_one_draw_bridge", "c04_n_draw_bridge", "c04_sampler_unbiased", "c04_public_wrapper",
+                  "c04_public_refuses", "c04_facts"],
         allowed_axioms=[],
         facts=["nonzero_atol"],
         harness="c04",
@@ -26,8 +27,13 @@ ENTRY = dict(
                    "per run, the sequence of generator yields included; for samples_needed<=3 every answer sequence of the oracle is "
                    "enumerated. Totality: on valid input, any sorting permutations and any admissible tape the model never answers "
                    "Crashed (all remaining asserts unreachable) and, when every basis has an entry above the cut-off, N>=1 is served. "
-                   "The link between the tape sampler `populate` and the expectation functional `ecount` is proved for ONE draw "
-                   "(c04_one_draw_bridge_partial); for n draws it is compared on exhaustively enumerated trees only.",
+                   "The link between the tape sampler `populate` and the expectation functional `ecount` is proved for EVERY number of "
+                   "draws (c04_n_draw_bridge: summing over all oracle tapes, weighted by the product of the probabilities the code "
+                   "passed to numpy.random.choice, the tape law has mass 1 and the expected count of a joint map is ecount), hence "
+                   "c04_sampler_unbiased: the expectation over all tapes of count*single_sample_weight returned by the real sampling "
+                   "loop is N*p -- unbiasedness follows from O-choice alone. The public wrapper generate_qpd_weights (probabilities "
+                   "|c|/kappa from the coefficients, core, stable sort) is modelled and all theorems transfer through "
+                   "c04_public_wrapper (kappa <> 0).",
         level_note=STD_NOTE + "No axioms. Modelling assumptions: O-choice (numpy.random.choice(range(n),k,p) returns k indices, each of "
                    "positive probability; E[count_i]=k*p_i; different calls independent) -- the support part is monitored on every case, "
                    "the law enters only through the expectation functional; np.argsort(cp)[::-1] returns SOME descending permutation "
